@@ -9,6 +9,8 @@ import (
 	"fmt"
 	"os"
 
+	"verifharness/ledgerh"
+	"verifharness/preimage"
 	"verifharness/signer"
 )
 
@@ -39,6 +41,20 @@ func main() {
 	switch cmd {
 	case "signer":
 		st, err := signer.Generate(*seed, *n, *out, *scratch, *jsonOut)
+		if err != nil {
+			fmt.Fprintln(os.Stderr, "error:", err)
+			os.Exit(3)
+		}
+		writeStats(*stats, st)
+	case "preimage":
+		st, err := preimage.Generate(*seed, *n, *out)
+		if err != nil {
+			fmt.Fprintln(os.Stderr, "error:", err)
+			os.Exit(3)
+		}
+		writeStats(*stats, map[string]interface{}{"vectors": st, "probe": preimage.Probe(*seed, *n)})
+	case "ledger":
+		st, err := ledgerh.Generate(*seed, *n, *out, *scratch, *jsonOut)
 		if err != nil {
 			fmt.Fprintln(os.Stderr, "error:", err)
 			os.Exit(3)
